@@ -467,6 +467,9 @@ fn gen_history(rng: &mut Rng) -> History {
             h.spec = spec;
             return h;
         }
+        if rng.chance(2, 5) && spec < SpecId::CANCUN {
+            return gen_recreate_cycles(rng, spec);
+        }
         gen_lifecycle(rng, spec)
     } else {
         let spec = random_spec(rng, false);
